@@ -179,7 +179,7 @@ pub fn arr<const N: usize>(s: &[u8]) -> (r: std::result::Result<[u8; N], std::ar
     ensures s.len() == N ==> r is Ok && r.unwrap()@ == s@, s.len() != N ==> r is Err,
 { use std::convert::TryInto; s.try_into() }
 #[verifier::external_body]
-pub fn arr_be_u16(b: [u8; 2]) -> (r: u16) ensures r as nat == be_nat(b@) { u16::from_be_bytes(b) }
+pub fn arr_be_u16(b: [u8; 2]) -> (r: u16) ensures r as nat == be_nat(b@), r == be16(b[0], b[1]) { u16::from_be_bytes(b) }
 #[verifier::external_body]
 pub fn arr_be_u32(b: [u8; 4]) -> (r: u32) ensures r as nat == be_nat(b@) { u32::from_be_bytes(b) }
 #[verifier::external_body]
@@ -1175,7 +1175,32 @@ pub broadcast proof fn ax_run_len(ls: Seq<Seq<u8>>)
     ensures #[trigger] run(ls).len() == wl(ls), wl(ls) >= 0
 { lemma_run_len(ls); }
 
+/// closed forms of short big-endian strings and slices of slices: with them a parser that reads through
+/// `from_be_bytes([d[p], d[p + 1]])` or through a re-sliced window (`let w = &d[p..p + 8]; .. w[2] ..`) meets the same
+/// decoder clauses as one that reads `d[p..p + 2].try_into()?` (style changes must not need new proof hints)
+pub broadcast proof fn ax_be_nat_2(s: Seq<u8>)
+    requires s.len() == 2
+    ensures #[trigger] be_nat(s) == s[0] as nat * 256 + s[1] as nat
+{
+    reveal_with_fuel(be_nat, 3);
+    assert(s.drop_last().drop_last() =~= Seq::<u8>::empty());
+    assert(s.drop_last()[0] == s[0]);
+}
+pub broadcast proof fn ax_be_nat_4(s: Seq<u8>)
+    requires s.len() == 4
+    ensures #[trigger] be_nat(s) == ((s[0] as nat * 256 + s[1] as nat) * 256 + s[2] as nat) * 256 + s[3] as nat
+{ lemma_be4(s); }
+pub broadcast proof fn ax_be16_nat(a: u8, b: u8)
+    ensures (#[trigger] be16(a, b)) as nat == a as nat * 256 + b as nat
+{ lemma_be16_nat(a, b); }
+pub broadcast proof fn ax_subrange_subrange(s: Seq<u8>, a: int, b: int, c: int, d: int)
+    requires 0 <= a <= b <= s.len(), 0 <= c <= d <= b - a
+    ensures #[trigger] s.subrange(a, b).subrange(c, d) == s.subrange(a + c, a + d)
+{ assert(s.subrange(a, b).subrange(c, d) =~= s.subrange(a + c, a + d)); }
+
 pub broadcast group vx_axioms { axiom_cow_deref_bytes, axiom_into_bytes_view_slice, ax_enc_be_len, ax_run_len }
+/// only in the bodies of the parse functions (contracts/style.py): elsewhere these rewrites cost more than they give
+pub broadcast group vx_style { ax_be_nat_2, ax_be_nat_4, ax_be16_nat, ax_subrange_subrange }
 
 /// vacuity canary (vx/vacuity.py): every call must be reported as a failed precondition
 pub proof fn vx_canary() requires false {}
